@@ -18,7 +18,44 @@ Inductive lift_obs :=
 | LAbort                (* the child process died (abort in C code, stack overflow, ...) *)
 | LTimeout.             (* no answer within the wall-clock limit *)
 
-Inductive case := KLift (addr_bits : Z) (relift_equal : bool) (obs : lift_obs).
+(* Known-finding classes.  A case whose INPUT belongs to a known-finding class (decided by the harness from the
+   decoded instruction) names the single clause the class is known to violate.  Its tie then demands that the
+   observation passes the validators with exactly that clause waived -- any other failing clause on a tagged input
+   makes the tie fail as well, and vcheck reports a VIOLATION instead of a KNOWN-FINDING. *)
+Inductive tol :=
+| TIndexWidth     (* Load / Store index width differs from the architecture's address width *)
+| TBranchWidth    (* Branch target width differs from the architecture's address width *)
+| TAssignWidth    (* Assign source width differs from the destination width *)
+| TPanic.         (* the lifter panics *)
+Definition tol_eqb (a b : tol) : bool :=
+  match a, b with
+  | TIndexWidth, TIndexWidth | TBranchWidth, TBranchWidth | TAssignWidth, TAssignWidth | TPanic, TPanic => true
+  | _, _ => false
+  end.
+Definition waived (t : tol) (l : list tol) : bool := existsb (tol_eqb t) l.
+
+(* wf_op / wf_graph / wf_result of Lift/Wf.v with the clauses of l waived *)
+Definition wf_op_tol (l : list tol) (ab : Z) (o : operation) : bool :=
+  match o with
+  | OAssign d s => wf_expr s && (waived TAssignWidth l || (e_bits s =? sbits d))
+  | OStore i s => wf_expr i && wf_expr s && (waived TIndexWidth l || (e_bits i =? ab)) && mem_w (e_bits s)
+  | OLoad d i => wf_expr i && (waived TIndexWidth l || (e_bits i =? ab)) && mem_w (sbits d)
+  | OBranch t => wf_expr t && (waived TBranchWidth l || (e_bits t =? ab))
+  | _ => wf_op ab o
+  end.
+Definition wf_graph_tol (l : list tol) (ab : Z) (g : cfg) : bool :=
+  match g_entry g, g_exit g with
+  | Some en, Some ex =>
+      has_block g en && has_block g ex && reach_check g en ex &&
+      forallb (fun e => has_block g (e_head e) && has_block g (e_tail e) && wf_guard (e_cond e)) (g_edges g) &&
+      forallb (fun b => forallb (fun i => wf_op_tol l ab (i_op i)) (b_instrs b)) (g_blocks g)
+  | _, _ => false
+  end.
+Definition wf_result_tol (l : list tol) (ab : Z) (r : bresult) : bool :=
+  forallb (fun p => wf_graph_tol l ab (snd p)) (br_instrs r) &&
+  forallb (fun p => wf_guard (snd p)) (br_succs r).
+
+Inductive case := KLift (addr_bits : Z) (relift_equal : bool) (known : list tol) (obs : lift_obs).
 
 Definition obs_ok (ab : Z) (o : lift_obs) : bool :=
   match o with
@@ -27,14 +64,26 @@ Definition obs_ok (ab : Z) (o : lift_obs) : bool :=
   | LPanic | LAbort | LTimeout => false
   end.
 
+(* the observation of an input of known-finding classes l deviates at most in the clauses of l *)
+Definition obs_ok_tol (l : list tol) (ab : Z) (o : lift_obs) : bool :=
+  match o with
+  | LOk r => wf_result_tol l ab r && guards_det_check r
+  | LErr => true
+  | LPanic => waived TPanic l
+  | LAbort | LTimeout => false
+  end.
+
 Definition ck (k : case) : bool * bool :=
-  match k with KLift ab relift o => (relift, relift && obs_ok ab o) end.
+  match k with
+  | KLift ab relift l o =>
+      (relift && match l with [] => true | _ => obs_ok_tol l ab o end, relift && obs_ok ab o)
+  end.
 
 (* what a passing case means *)
-Lemma oracle_sound : forall ab relift o, snd (ck (KLift ab relift o)) = true ->
+Lemma oracle_sound : forall ab relift l o, snd (ck (KLift ab relift l o)) = true ->
   relift = true /\ (o = LErr \/ exists r, o = LOk r /\ Wf_result ab r /\ Det_result r).
 Proof.
-  intros ab relift o H. cbn in H. apply andb_prop in H as [H1 H2]. split; [exact H1|].
+  intros ab relift l o H. cbn in H. apply andb_prop in H as [H1 H2]. split; [exact H1|].
   destruct o as [r| | | |]; try discriminate H2; [right|left; reflexivity].
   cbn in H2. apply andb_prop in H2 as [Hw Hd].
   exists r. split; [reflexivity|]. split; [apply wf_result_sound|apply guards_det_sound]; assumption.
@@ -52,8 +101,8 @@ Definition blk (i : Z) (l : list instruction) : block := mkblock i (Z.of_nat (le
    [re-lift equal; wf_result; guards of every instruction graph; successor guards; successor addresses distinct] *)
 Definition diag (k : case) : list bool :=
   match k with
-  | KLift ab relift (LOk r) =>
+  | KLift ab relift _ (LOk r) =>
       [relift; wf_result ab r; forallb (fun p => guards_det_graph (snd p)) (br_instrs r);
        match br_succs r with [] => true | ss => exactly_one (map snd ss) end; nodupZ (map fst (br_succs r))]
-  | KLift _ relift o => [relift; obs_ok 0 o]
+  | KLift _ relift _ o => [relift; obs_ok 0 o]
   end.
